@@ -139,11 +139,19 @@ def cases(O):
         elif kind == "empty":
             tail = "//# sourceMappingURL="
         full = code + ("\n" + tail + "\n" if tail else "\n")
+        lines_ = code.split("\n")
+        if tail and len(lines_) > 2 and i % 3 == 0 and kind != "two":     # ("two": the other, unusable reference must stay the earlier one)
+            # the reference does not have to be the last thing in the file: bundlers leave it in the middle, code follows
+            j = rng.randrange(1, len(lines_) - 1)
+            if not any("`" in l for l in lines_):      # never cut a multi-line template literal
+                # on the line of the token it trails (a comment on a line of its own belongs to the NEXT token, as a leading
+                # comment: the rewriter does not take it for the reference and rightly leaves it alone)
+                full = "\n".join(lines_[:j]) + " " + tail + "\n" + "\n".join(lines_[j:]) + "\n"
         cfg = F.config_variants(rng) if rng.random() < 0.3 else vlib.default_config()
         cfg["chainSourceMap"] = rng.random() < 0.75
         cfg["comments"] = rng.random() < 0.5
         cs.append({"id": "c10-%d-%s" % (i, kind), "config": cfg, "fs": fs, "calls": [{"code": full, "file": file}],
-                   "opts": {"pieces": True, "reparse": True}, "kind": kind, "usable": usable, "omap": omap})
+                   "opts": {"pieces": True, "reparse": True}, "kind": kind, "usable": usable, "omap": omap, "tail": tail})
     cs += E.finding_cases("C10", {"pieces": True, "reparse": True})
     return cs
 
@@ -181,6 +189,11 @@ def run(O, P):
                 stray = [l for l in body.split("\n") if re.match(r"\s*//\s*# sourceMappingURL=", l) or l.strip() == "//"]
                 if stray and case.get("kind") != "finding":
                     bad("with comments kept the superseded sourceMappingURL comment is still in the content: %r" % stray[0][:80]); continue
+                # wherever the reference stood (also behind a statement on the same line): exactly that one occurrence of its text goes
+                tl = case.get("tail")
+                if tl and len(tl) > len("//# sourceMappingURL=") and body.count(tl) != cin["code"].count(tl) - 1:
+                    bad("with comments kept the text of the superseded sourceMappingURL comment occurs %d time(s) in the content, %d in the input (the comment itself must go, look-alike literals must stay)"
+                        % (body.count(tl), cin["code"].count(tl))); continue
             if m and m.get("roundtrip_ok") is False:
                 bad("the content does not re-parse to the printed tree (a literal or regular expression was altered?): %s / %s" % (
                     (m.get("roundtrip_diff_out") or "")[:160], (m.get("roundtrip_diff_reparsed") or "")[:160])); continue
